@@ -67,6 +67,28 @@ type C14Reply struct {
 	N int64
 }
 
+// c14Bad are the values of S for which a handler fails or panics.
+var c14Bad = []string{"fail", "panic", "nil", "panicerr", "panicint", "panicstruct", "panicf"}
+
+func c14IsBad(s string) bool {
+	for _, b := range c14Bad {
+		if s == b {
+			return true
+		}
+	}
+	return false
+}
+
+// C14Who is answered with the address of the answering server (for requests
+// sent to several servers at once).
+type C14Who struct {
+	Nonce int64
+}
+type C14WhoReply struct {
+	Nonce int64
+	Addr  string
+}
+
 // c14Calls counts handler invocations in this process.
 var c14Calls int64
 
@@ -82,6 +104,14 @@ func c14Transform(tag string, a int64, s string, b []byte) (*C14Reply, error) {
 	case "nil":
 		var p *C14Reply
 		return &C14Reply{A: p.A}, nil
+	case "panicerr":
+		panic(errors.New("boom"))
+	case "panicint":
+		panic(42)
+	case "panicstruct":
+		panic(struct{ X int }{7})
+	case "panicf":
+		log.Panicf("boom %d", 7) // panics with its argument list, a []interface{}
 	}
 	r := &C14Reply{A: a, S: s + "/" + tag, N: int64(len(s) + len(b))}
 	for i := len(b) - 1; i >= 0; i-- {
@@ -114,6 +144,11 @@ func (s *c14Service) keep(m *C14Keep) (*C14Reply, error) {
 	s.kept = m.B // retained, not copied
 	s.keptMu.Unlock()
 	return c14Transform("Keep", m.A, m.S, prev)
+}
+
+// who is not counted in c14Calls: how many servers are asked depends on the schedule.
+func (s *c14Service) who(m *C14Who) (*C14WhoReply, error) {
+	return &C14WhoReply{Nonce: m.Nonce, Addr: string(s.ServerIdentity().Address)}, nil
 }
 func (s *c14Service) echo(m *C14Echo) (*C14Reply, error) {
 	atomic.AddInt64(&c14Calls, 1)
@@ -160,7 +195,7 @@ func (s *c14Service) getEmpty(m *C14Empty) (*C14Reply, error) {
 
 func newC14Service(c *onet.Context) (onet.Service, error) {
 	s := &c14Service{ServiceProcessor: onet.NewServiceProcessor(c)}
-	if err := s.RegisterHandlers(s.echo, s.swap, s.key, s.keep); err != nil {
+	if err := s.RegisterHandlers(s.echo, s.swap, s.key, s.keep, s.who); err != nil {
 		return nil, err
 	}
 	for _, r := range []struct {
